@@ -1,7 +1,7 @@
 #!/bin/bash
-# w7_intake.sh <P> <i> [props...]: confirm sub-agent deliverable /tmp/w7/out-<P>/m<i> (seed_verify.sh), then run the named checks against it
-P=$1; I=$2; shift 2
-ID=w7${P}m$I; D=/tmp/w7/out-$P/m$I
+# wave_intake.sh <wave> <P> <i> [props...]: confirm sub-agent deliverable /tmp/w<wave>/out-<P>/m<i> (seed_verify.sh), then run the named checks against it
+WV=$1; P=$2; I=$3; shift 3
+ID=w${WV}${P}m$I; D=/tmp/w$WV/out-$P/m$I
 [ -f $D/patch.diff ] && [ -f $D/demo_test.go ] || { echo "$ID: deliverable missing"; exit 2; }
 [ "$P" = C17 ] && export DEMOFLAGS=-race
 /verif/scripts/seed_verify.sh $ID $D/patch.diff $D/demo_test.go
